@@ -125,9 +125,14 @@ class Parameters:
         if self.delay.delay_until is not None and self.delay.delay_until > now:
             return self.delay.delay_until
         if self.delay.defer_by is not None:
-            defer_by_times = (now - self.timestamp) // self.delay.defer_by + 1
+            # timestamp is reset on every reschedule, so count the periods from the time
+            # this run was scheduled for (if any) to keep a steady cadence
+            time_base = (
+                self.delay.next_execution_time or self.delay.delay_until or self.timestamp
+            )
+            defer_by_times = (now - time_base) // self.delay.defer_by + 1
             time_offset = self.delay.defer_by * defer_by_times
-            return self.timestamp + time_offset
+            return time_base + time_offset
         if self.delay.cron is not None:
             if not CRON_SUPPORT:
                 raise ImportError("Croniter is not installed.")  # pragma: no cover
